@@ -294,6 +294,13 @@ func (f *File) enterWriteMode() error {
 				"",
 				true,
 			); err != nil {
+				// Don't keep what has been restored so far (i.e. content that failed verification, or only a part of the file); a later write would continue on it and `Close` would archive it
+				_ = f.writeBuf.Close()
+				_ = f.cleanWriteBuf()
+
+				f.writeBuf = nil
+				f.cleanWriteBuf = nil
+
 				return err
 			}
 		}
